@@ -111,6 +111,12 @@ def run_case(desc, ctx):
             m.vertices[i] = M.Vec(V[i].copy())
     else:
         ctx.cls("history:fresh")
+    if mode == "length" and rng.random() < 0.3 and len(E) >= 2:
+        # some edges have coincident end points (a repeated polyline point, an unmerged seam): legitimate edges of length exactly 0
+        ctx.cls("geometry:edges_of_length_zero")
+        for (a, b) in rng.sample(sorted(E), min(len(E), rng.randint(1, 3))):
+            V[b] = V[a]
+            m.vertices[b] = M.Vec(V[b].copy())
     ctx.cls("mesh:" + cls)
     ctx.cls("weights:" + mode)
     # weight function on unordered pairs, independent of the library
@@ -171,7 +177,7 @@ def run_case(desc, ctx):
         same = [v for v in range(n) if comp[v] == comp[start]]
         dref = graphs.dijkstra(n, adj, start)
         hops = graphs.bfs(n, hop, start)
-        kind = ["int", "list", "set", "tuple", "self", "many", "repeated"][(q + desc["seed"]) % 7]
+        kind = ["int", "list", "set", "tuple", "self", "many", "repeated", "frozenset", "index_array"][(q + desc["seed"]) % 9]
         if kind == "int":
             tg = [rng.choice(same)]
             arg = tg[0]
@@ -189,7 +195,8 @@ def run_case(desc, ctx):
                 arg = tuple(arg)
         else:
             tg = rng.sample(same, min(len(same), rng.randint(1, 3)))
-            arg = {"list": list, "set": set, "tuple": tuple}[kind](tg)
+            # any collection of vertex indices: also a frozenset, or the index array that np.where / np.flatnonzero hand back
+            arg = {"list": list, "set": set, "tuple": tuple, "frozenset": frozenset, "index_array": lambda t: np.array(t, dtype=np.int64)}[kind](tg)
         ctx.cls("targets:" + kind)
         export = rng.random() < 0.25
         ok, res = ctx.call("shortest_path[%s]" % ("one" if mode == "one" else "length" if mode == "length" else "custom"),
